@@ -259,6 +259,9 @@ pub fn err_obs(e: &ParserError) -> ErrObs {
             ErrObs { variant: "AttrError", pos: None, inner_dbg: String::new(), attr: Some(a.clone()), utf8: None, display }
         }
         ParserError::ParsingError(_) => ErrObs { variant: "ParsingError", pos: None, inner_dbg: String::new(), attr: None, utf8: None, display },
+        // a variant added by a future version must not break the harness build
+        #[allow(unreachable_patterns)]
+        _ => ErrObs { variant: "OtherVariant", pos: None, inner_dbg: String::new(), attr: None, utf8: None, display },
     }
 }
 
